@@ -26,6 +26,8 @@ structure DState where
   hdrNet : Tree.Net := .regtest
   /-- C03: the chain served before the last ingestion opportunity, and how many anchors it popped -/
   servedBefore : List Nat := []
+  /-- C06: interleaved page walk (address, limit, next token, first tip, collected so far, same tip, expected set) -/
+  walk : Option (Addr × Nat × (Nat × Nat × OutPoint) × (Nat × Nat) × List Utxo × Bool × String) := none
   lastPopped : Nat := 0
 
 def statusCode : Watchdog.Status → Nat
@@ -158,7 +160,9 @@ def stepCanister (d : DState) (ws : List String) : DState × String :=
         | none => []
       ({ d with st := some s', ghost := d.ghost ++ popped }, s!"{o} | {summary s'}")
     match s.heartbeatStart (envOf d) budget.toNat! with
-    | .trap => (d, s!"trap | {summary s}")
+    | .trap =>
+      -- specification (C09/C08): a heartbeat never traps on a state reached from valid inputs
+      (d, "trap | - ## done-or-await ## F13")
     | .ingested s' _ => finish s' "done"
     | .processed s' => finish s' "done"
     | .awaiting s' r => finish s' s!"await {showRequest r}"
@@ -172,11 +176,24 @@ def stepCanister (d : DState) (ws : List String) : DState × String :=
     let (d2, hs) := registerHeaders d1 (parseList (dropPrefix next 5) '&')
     applyReply d2 s (.partial_ ⟨if piece == "-" then "" else piece, hs, k.toNat!⟩)
   | ["reply", "followup", piece], some s => applyReply d s (.followUp (if piece == "-" then "" else piece))
-  | ["upgrade", arg], some s =>
+  | ["upgrade", arg, addrs], some s =>
     let cfg : Option State.SetConfig :=
       if arg.startsWith "thr=" then some { stabilityThreshold := some (dropPrefix arg 4).toNat! } else none
     let s' := s.upgrade cfg
-    ({ d with st := some s' }, s!"ok | {summary s'}")
+    -- C09: the labelled answers of every query endpoint before and after
+    let obsVec (st : State) : List (String × String) :=
+      let guarded (o : String) : String := if (st.guard (envOf d) st.network true).isSome then "trap" else o
+      let al := parseList addrs ','
+      [("info", showInfo st.blockchainInfo)] ++
+      ((List.range al.length).zip al).flatMap (fun p =>
+        [(s!"utxos{p.1}", guarded (utxosAll st (.ok (strBytes p.2)) .none_ Btc.Gen.maxUtxosPerResponse)),
+         (s!"balance{p.1}", guarded (showBalance (st.getBalance (.ok (strBytes p.2)) 0)))]) ++
+      [("headers", guarded (showHeaders (st.getBlockHeaders Btc.Gen.maxBlockHeadersPerResponse 0 none))),
+       ("synced", if st.isSynced Btc.Gen.syncedThreshold then "1" else "0")]
+    let same := match ((obsVec s).zip (obsVec s')).find? (fun p => p.1.2 != p.2.2) with
+      | none => "same=1:-"
+      | some p => s!"same=0:{p.1.1}"
+    ({ d with st := some s' }, s!"ok | {summary s'} | {same} ## ok | {summary s'} | same=1:-")
   | ["setcfg", kv], some s =>
     let v := kv.endsWith "=1"
     let cfg : State.SetConfig :=
@@ -222,6 +239,40 @@ def stepCanister (d : DState) (ws : List String) : DState × String :=
     | .paused s' => finish s' "paused"
     | .done s' true => finish s' "done1"
     | .done s' false => finish s' "done0"
+  | ["walk", "start", addr, lim], some s =>
+    let a := strBytes addr
+    let res := s.getUtxos (.ok a) .none_ lim.toNat!
+    let d' := match res with
+      | .ok r =>
+        -- specification (C06/C01): the whole walk must deliver the ledger state at this first tip
+        let expected := match fullChainTo d.ghost s r.tipHash with
+          | some chain => canonUtxos (Spec.ledgerFor a chain)
+          | none => "unknown-tip"
+        match r.nextPage with
+        | some tok => { d with walk := some (a, lim.toNat!, tok, (r.tipHeight, r.tipHash), r.utxos, true, expected) }
+        | none => { d with walk := some (a, lim.toNat!, (0, 0, ⟨0, 0⟩), (r.tipHeight, r.tipHash), r.utxos, true, expected) }
+      | _ => { d with walk := none }
+    (d', showUtxosResult res)
+  | ["walk", "next"], some s =>
+    match d.walk with
+    | none => (d, "bad-op")
+    | some (a, lim, tok, tip, coll, same, expected) =>
+      let res := s.getUtxos (.ok a) (.page (some tok)) lim
+      match res with
+      | .ok r =>
+        let same' := same && r.tipHeight == tip.1 && r.tipHash == tip.2
+        let tok' := r.nextPage.getD (0, 0, ⟨0, 0⟩)
+        ({ d with walk := some (a, lim, tok', tip, coll ++ r.utxos, same', expected) }, showUtxosResult res)
+      | _ => ({ d with walk := none }, showUtxosResult res)
+  | ["walk", "done"], some _ =>
+    match d.walk with
+    | none => (d, "bad-op")
+    | some (_, _, _, tip, coll, same, expected) =>
+      let desc := decide (coll.Pairwise (fun x y => x.height ≥ y.height))
+      let nodup := decide ((coll.map (·.outpoint)).Nodup)
+      let b (x : Bool) : Nat := if x then 1 else 0
+      ({ d with walk := none },
+        s!"{tip.1} {canonUtxos coll} desc={b desc} nodup={b nodup} sametip={b same} ## {tip.1} {expected} desc=1 nodup=1 sametip=1")
   | ["advance"], some s =>
     let k := d.lastPopped
     let onchain := d.servedBefore[k]? == some s.unstable.tree.root.hash
